@@ -301,3 +301,61 @@ Definition c11_certificate (d : nat) (M M0 : list (list Q)) (vs : list (list Q *
       let B := @madd QOps B0 (@wgram QOps d signed (map fst vs)) in
       mclose tol_1e6 (@mmulg QOps M B) (identQ d)
   end.
+
+(* ---------------- C14 ---------------------------------------------------------------------- *)
+From ML Require Import MMC.
+(* full-matrix MMC: M is PSD and sum_S v^T M v <= 1.01 * (sum_S v^T A_init v) / 100 *)
+Definition c14_full (M A_init : list (list Q)) (pos_vs : list (list Q)) : bool :=
+  c_psd tol_1e9 M &&
+  Qle_bool (@fS QOps M pos_vs) (Qred ((101 # 100) * (@fS QOps A_init pos_vs) / 100 + tol_1e12)).
+Definition c14_diag (M : list (list Q)) : bool :=
+  forallb (fun ir => forallb (fun ja => if Nat.eqb (fst ir) (fst ja) then Qle_bool 0 (snd ja) else qeqb (snd ja) 0)
+                             (combine (seq 0 (length (snd ir))) (snd ir)))
+          (combine (seq 0 (length M)) M).
+
+(* ---------------- C12 ---------------------------------------------------------------------- *)
+From ML Require Import LSML.
+(* the code's _total_loss and _gradient against the documented weighted formulas (binary64);
+   logdet and M^-1 are the values numpy handed to the code *)
+Definition c12_loss_grad (d : nat) (M P Minv : list (list fl)) (logdet : fl)
+    (qs : list (list fl * list fl * fl)) (loss_impl : fl) (grad_impl : list (list fl)) : bool :=
+  let quads := map (fun q => match q with (a, c, w) => @Build_quad FOps a c w end) qs in
+  let l := @total_loss FOps M P logdet quads in
+  let G := @gradient FOps d M P Minv quads in
+  fclose f1em9 f1em12 l loss_impl &&
+  fmclose f1em7 (PrimFloat.mul f1em9 (PrimFloat.add PrimFloat.one (fmaxabs grad_impl))) G grad_impl.
+
+(* ---------------- C13 ---------------------------------------------------------------------- *)
+From ML Require Import SDML.
+(* (a) the matrix handed to the graphical lasso is the documented one; (b) KKT certificate of the
+   returned M on exact rationals, M^-1 by exact Gauss-Jordan; (c) M symmetric positive definite *)
+Definition c13_case (d : nat) (prior_inv : list (list Q)) (balance alpha : Q) (ys : list Q) (diffs : list (list Q))
+    (S_impl M : list (list Q)) : bool :=
+  let S := @emp_cov QOps d prior_inv balance ys diffs in
+  mclose (Qred (tol_1e9 * qmaxabs S)) S S_impl &&
+  c_spd tol_1e9 M &&
+  match @minv QOps M with
+  | None => false
+  | Some Minv => @glasso_kkt QOps alpha (Qred ((5 # 1000) * qmaxabs S)) S Minv M
+  end.
+
+(* ---------------- C09 ---------------------------------------------------------------------- *)
+(* Covariance: M is the Moore-Penrose pseudo-inverse of the sample covariance (divisor n-1) *)
+Definition penrose (rtol : Q) (C M : list (list Q)) : bool :=
+  let CM := @mmulg QOps C M in let MC := @mmulg QOps M C in
+  let tC := Qred (rtol * qmaxabs C) in let tM := Qred (rtol * qmaxabs M) in
+  mclose tC (@mmulg QOps CM C) C && mclose tM (@mmulg QOps MC M) M && msymQ rtol CM && msymQ rtol MC.
+Definition c09_covariance (X M : list (list Q)) : bool := penrose tol_1e6 (@cov QOps 1 X) M.
+
+(* RCA: within-chunk covariance (chunk-centred points, divisor = number of chunked points) and
+   L C L^T = I_k;  for k = d also M C = I *)
+Definition chunk_centered (X : list (list Q)) (chunks : list Z) (nchunks : nat) : list (list Q) :=
+  flat_map (fun c => let rows := map fst (filter (fun xc => Z.eqb (snd xc) (Z.of_nat c)) (combine X chunks)) in
+                     match rows with [] => [] | _ => @center QOps rows end) (seq 0 nchunks).
+Definition inner_cov (X : list (list Q)) (chunks : list Z) (nchunks : nat) : list (list Q) :=
+  let Xc := chunk_centered X chunks nchunks in
+  let n := inject_Z (Z.of_nat (length Xc)) in
+  map (map (fun a => Qred (a / n))) (@mmulg QOps (@transp QOps Xc) Xc).
+Definition c09_rca (X : list (list Q)) (chunks : list Z) (nchunks : nat) (L : list (list Q)) : bool :=
+  let C := inner_cov X chunks nchunks in
+  mclose tol_1e6 (@mmulg QOps (@mmulg QOps L C) (@transp QOps L)) (identQ (length L)).
